@@ -10,7 +10,16 @@
 //   (4) arc correction: uniform -> uniform, integral over s preserved
 //
 // Every tolerance and exception below is derived from the property text and the STIR sources; the
-// source is cited next to it.
+// source is cited next to it.  Decisions taken after triage on the unchanged tree (details, replay files and
+// proposed patches in work/notes/C12_findings.md):
+//   suspected defects, excluded narrowly by construction (VERIF_NO_EXCLUDE=1 switches the exclusions off):
+//     F1 ArcCorrection: last output bin twice as wide        F4 generic/blocks get_bin does not invert get_LOR
+//     F2 get_bin rounds adjacent detectors to det1==det2      F5 arc-corrected get_bin returns view_num==num_views
+//     F3 generic get_tantheta divides by 2R, not the chord    F6 TOF bin limits differ by one ulp -> time differences in no bin
+//   oracle decisions (not defects):
+//     D1 a miss is also accepted at the first/last tangential position when the bin's LOR is a tie between detectors
+//     D2 obliqueness of axially truncated / even-span bins is checked at segment level (STIR's documented convention)
+//     D3 blocks geometry: coordinates modulo the orientation of the normalised LOR; no s/phi (anti)symmetry demanded
 #include "stir_gen.h"
 #include "stir/ProjDataInfoCylindricalNoArcCorr.h"
 #include "stir/ProjDataInfoCylindricalArcCorr.h"
@@ -83,6 +92,7 @@ struct P3
 struct Line
 {
   double s, m, tantheta, phi;
+  bool between; // the point of closest approach to the axis (a = 0) lies between the two detectors
 };
 inline Line
 line_through(const P3& p1, const P3& p2)
@@ -94,8 +104,10 @@ line_through(const P3& p1, const P3& p2)
   l.phi = std::atan2(dx, -dy);
   l.s = p2.x * cphi + p2.y * sphi;
   const double a1 = p1.x * sphi - p1.y * cphi;
+  const double a2 = p2.x * sphi - p2.y * cphi;
   l.tantheta = (p2.z - p1.z) / dxy;
   l.m = p1.z + a1 * l.tantheta;
+  l.between = a1 >= 0 && a2 <= 0;
   return l;
 }
 
@@ -138,7 +150,8 @@ bstr(const Bin& b)
 // exact==false (detector based): the rule of the property text = the rule of test_proj_data_info.cxx:221-262:
 //   same segment and TOF bin, |d view| <= 1 cyclically, |d axial| <= 1, |d tang| <= 1, where a step between the last and
 //   the first view reverses the signs of segment, tangential position and TOF bin; or value <= 0 ("misses the scanner")
-//   only for axially compressed bins within axial_margin() of an axial end.
+//   only for axially compressed bins within axial_margin() of an axial end (plus decision D1 below; 'ties' = the bin's LOR lies
+//   half-way between detectors).
 // The repository test decides "wrapped" by |dv| >= num_views-|dv|; for num_views <= 2 both readings of the same result
 // are possible (one view: the neighbour across the view end is the view itself), so either reading is accepted.
 Result
@@ -150,7 +163,7 @@ accept_roundtrip(const ProjDataInfoCylindrical& p, const Bin& b, const Bin& nb, 
       const int margin = axial_margin(p, seg);
       const bool at_edge
           = b.axial_pos_num() < p.get_min_axial_pos_num(seg) + margin || b.axial_pos_num() > p.get_max_axial_pos_num(seg) - margin;
-      // Relaxation w.r.t. the literal property text (decided from the replay work/notes/C12_findings.md "not a defect" section):
+      // Oracle decision D1 (work/notes/C12_findings.md), a relaxation w.r.t. the literal property text:
       // get_bin documents value<0 for "no such bin" and tests the tangential range (ProjDataInfo.h:368-382,
       // ProjDataInfoCylindricalNoArcCorr.cxx get_bin).  When the LOR of the bin lies exactly half-way between detectors
       // (odd tangential position = interleaving, or even view mashing: 'ties') the permitted one-step neighbour -- or, across the
@@ -687,7 +700,10 @@ check_blocks(const ProjDataInfoGenericNoArcCorr& p, const json& c)
                 const double tn = p.get_tantheta(Bin(-seg, v, ax, t));
                 VF_CHECK(std::fabs(tn + tth) <= 1e-4 * std::fabs(tth) + 1e-7, "tantheta(-seg) != -tantheta(seg) at ", bstr(b), ": ", tth, " vs ", tn);
               }
-            if (ax < p.get_max_axial_pos_num(seg))
+            // m is the axial position of the point of the line closest to the scanner axis: an interpolation between the two rings
+            // (hence increasing with the axial position, also with block gaps) only when that point lies between the detectors;
+            // for nearly tangential LORs through crystals at different radii it is an extrapolation and need not be monotone
+            if (ax < p.get_max_axial_pos_num(seg) && l.between)
               VF_CHECK(p.get_m(Bin(seg, v, ax + 1, t)) > m, "m not strictly increasing at ", bstr(b));
             // ---- clause (1) ----
             {
@@ -1069,7 +1085,7 @@ fixed_cases(int tier)
       cfgs.push_back({ 4, 3, 1, true, 1.7 });
       cfgs.push_back({ 11, 1, 1, false, 1. });
     }
-  const double budget = tier == 1 ? 1.5e7 : 5e5;
+  const double budget = tier == 1 ? 1.5e7 : 3e5;
   for (int t : vg::predefined_types())
     {
       shared_ptr<Scanner> sc(new Scanner(static_cast<Scanner::Type>(t)));
